@@ -526,7 +526,9 @@ class Protocol:
                 raise GitProtocolError(f"Invalid pkt-line length: {size:04x}")
             if self.report_activity:
                 self.report_activity(size, "read")
-            pkt_contents = read(size - 4)
+            # An empty pkt-line ("0004") has no payload to read; read(0) is
+            # not a valid request for every transport.
+            pkt_contents = read(size - 4) if size > 4 else b""
         except ConnectionResetError as exc:
             raise HangupException from exc
         except OSError as exc:
